@@ -2,6 +2,9 @@
 
    /repo/nbhttp/websocket/conn.go:
      WriteMessage / WriteFrame   c.mux.Lock(); defer c.mux.Unlock(); closed => ErrClosed;
+                                 WriteMessage, queued mode with a bound: len(sendQueue) + #frames > sendQueueSize =>
+                                 ErrMessageSendQuqueIsFull before anything is queued (a message is taken as a whole or not
+                                 at all; for the single frame of WriteFrame this is writeFrame's own check below);
                                  then one writeFrame per fragment (WriteFrame: exactly one), first error returns.
      writeFrame, direct mode     (c.sendQueue == nil)  _, err := c.Conn.Write(frame); return err
      writeFrame, queued mode     (BlockingModAsyncWrite: c.sendQueue != nil)
@@ -89,6 +92,13 @@ Definition advance_call (s : st) (c : call) (f : frame) (rest : list frame) : st
 Definition full (maxq : nat) (s : st) : bool :=
   match maxq with 0 => false | _ => maxq <=? length (slots s) end.
 
+(* the whole-message check of WriteMessage: no room for all the frames of the call *)
+Definition no_room (m : mode) (maxq : nat) (s : st) (fs : list frame) : bool :=
+  match m, maxq with
+  | Queued, S _ => maxq <? length (slots s) + length fs
+  | _, _ => false
+  end.
+
 Fixpoint set_nth (l : list (option frame)) (i : nat) : list (option frame) :=
   match l, i with
   | [], _ => []
@@ -104,6 +114,9 @@ Definition step (m : mode) (maxq : nat) (s : st) (a : action) : st :=
           if closed s
           then mk (slots s) (closed s) None (dr s) (extra s) (attempted s) (failed s) (dropped s)
                   (calls s ++ [(fs, [], RClosed)])
+          else if no_room m maxq s fs
+          then mk (slots s) (closed s) None (dr s) (extra s) (attempted s) (failed s) (dropped s)
+                  (calls s ++ [(fs, [], RFull)])
           else set_holder s (Some {| cfs := fs; cacc := []; crest := fs |})
       | _, _ => s
       end
@@ -176,7 +189,7 @@ Definition run (m : mode) (maxq : nat) (acts : list action) : st := fold_left (s
 
 (* what a harness could compare: is the action enabled, and what does it answer (computed on the state BEFORE) *)
 Inductive out :=
-| OBegin (refused : bool)
+| OBegin (r : option result)                 (* Some RClosed / Some RFull: refused as a whole; None: the call goes on *)
 | OFrame (r : option result) (head : bool)   (* the call's result if it returns now; did this frame start a drainer *)
 | ODWrite
 | OAdv (exit : bool)
@@ -185,7 +198,10 @@ Inductive out :=
 
 Definition observe (m : mode) (maxq : nat) (s : st) (a : action) : out :=
   match a with
-  | Begin fs => match holder s, fs with None, _ :: _ => OBegin (closed s) | _, _ => OStuck end
+  | Begin fs => match holder s, fs with
+                | None, _ :: _ => OBegin (if closed s then Some RClosed else if no_room m maxq s fs then Some RFull else None)
+                | _, _ => OStuck
+                end
   | Frame ok =>
       match holder s with
       | Some c =>
